@@ -20,6 +20,7 @@ StepOK(e, idx) ==
     [] e.ev = "RectClip" -> RectClipOK(e, idx)
     [] e.ev = "RectClipLines" -> RectClipLinesOK(e, idx)
     [] e.ev = "Measure" -> MeasureOK(e, idx)
+    [] e.ev = "Call" -> CallOK(e, idx)
     [] e.ev = "EngExec" -> EngExecOK(e, idx)
     [] e.ev = "OffExec" -> OffExecOK(e, idx)
     [] e.ev \in {"EngNew", "EngAdd", "OffNew", "OffAdd", "Reset"} -> TRUE
